@@ -3,6 +3,7 @@
 package main
 
 import (
+	"sort"
 	"bufio"
 	"bytes"
 	"context"
@@ -520,6 +521,25 @@ func runValCluster(sc *valScenario) (res valResult) {
 					return
 				}
 				ob = []interface{}{"code", cliCode(vc.put(op[1].(string), key, v))}
+			case "keys":
+				// every key of the DMap as an iterator hands it out: ["keys", path]
+				dm, err := vc.pick(op[1].(string), "")
+				if err != nil {
+					ob = []interface{}{"keys", cliCode(err)}
+					return
+				}
+				it, err := dm.Scan(vc.ctx)
+				if err != nil {
+					ob = []interface{}{"keys", cliCode(err)}
+					return
+				}
+				var ks []string
+				for it.Next() {
+					ks = append(ks, hex.EncodeToString([]byte(it.Key())))
+				}
+				it.Close()
+				sort.Strings(ks)
+				ob = []interface{}{"keys", "nil", ks}
 			case "bput":
 				// several writes queued in ONE pipeline before Exec: ["bput", [[keyhex, type, repr, "put"|"getput"], ...]]
 				items := op[1].([]interface{})
